@@ -111,6 +111,12 @@ func (l *vf27Logger) Log(_ logger.Level, format string, args ...any) {
 // that everything before has been consumed. The recorder instance then closes its segment exactly
 // as it does on a normal stop. The successor units carry the ids 9001.. and are never written.
 func vf27Record(t testing.TB, dir string, pathName string, run vf27Run) []string {
+	files, _ := vf27RecordEx(t, dir, pathName, run)
+	return files
+}
+
+// vf27RecordEx also returns what the recorder reported through OnSegmentComplete (path -> ms).
+func vf27RecordEx(t testing.TB, dir string, pathName string, run vf27Run) ([]string, map[string]int64) {
 	var medias []*description.Media
 	var vMedia, aMedia *description.Media
 	if run.Video {
@@ -152,6 +158,7 @@ func vf27Record(t testing.TB, dir string, pathName string, run vf27Run) []string
 	lg := &vf27Logger{drift: make(chan struct{})}
 	var mu sync.Mutex
 	var created []string
+	completed := map[string]int64{}
 	rec := &recorder.Recorder{
 		PathFormat:      filepath.Join(dir, "%path/%Y-%m-%d_%H-%M-%S-%f"),
 		Format:          conf.RecordFormatFMP4,
@@ -163,6 +170,11 @@ func vf27Record(t testing.TB, dir string, pathName string, run vf27Run) []string
 		OnSegmentCreate: func(p string) {
 			mu.Lock()
 			created = append(created, p)
+			mu.Unlock()
+		},
+		OnSegmentComplete: func(p string, d time.Duration) {
+			mu.Lock()
+			completed[p] = int64(d / time.Microsecond)
 			mu.Unlock()
 		},
 		Parent: lg,
@@ -225,7 +237,7 @@ func vf27Record(t testing.TB, dir string, pathName string, run vf27Run) []string
 	rec.Close()
 	mu.Lock()
 	defer mu.Unlock()
-	return append([]string{}, created...)
+	return append([]string{}, created...), completed
 }
 
 // vf27Ends gives, per track, the instant at which the track's last sample ends: the last sample of
@@ -821,35 +833,55 @@ func vf27IDs(ss []vf27Sample) [][2]int {
 
 // vf27StdRun: two segments of at least three parts each. "va": H264 25 fps with an IDR every
 // 200 ms (so that the 300 ms segment duration elapses between two IDRs) plus audio every 30 ms;
-// "a": audio only.
+// "a": audio only. "va+N" / "va-N": as "va" but the audio timestamps (stream clock and absolute
+// time alike) lead / lag the video by N ms, both tracks have one unit every 40 ms and the units
+// arrive in capture order, video first, so that parts of the two tracks overlap in time. A trailing
+// "r" (not in the default set, see TestVerif_C27_Crash) keeps the 30 ms audio cadence: the second
+// audio unit then arrives before the second video unit.
 func vf27StdRun(kind string, t0 int64) (vf27Run, map[int]vf27Unit) {
-	run := vf27Run{Video: kind == "va", Audio: true, PartMs: 100, SegMs: 300}
-	var us []vf27Unit
-	id := 1
-	if kind == "va" {
+	video := strings.HasPrefix(kind, "va")
+	var off int64
+	acad := int64(30)
+	if len(kind) > 2 {
+		num := strings.TrimSuffix(kind[2:], "r")
+		v, err := strconv.Atoi(num)
+		if err != nil {
+			panic(err)
+		}
+		off = int64(v)
+		if !strings.HasSuffix(kind, "r") {
+			acad = 40
+		}
+	}
+	run := vf27Run{Video: video, Audio: true, PartMs: 100, SegMs: 300}
+	type capt struct {
+		at int64
+		u  vf27Unit
+	}
+	var cs []capt
+	if video {
 		for ms := int64(0); ms < 800; ms += 40 {
-			us = append(us, vf27Unit{Track: 1, T: t0 + ms, NTP: ms, Sync: ms%200 == 0})
+			cs = append(cs, capt{ms, vf27Unit{Track: 1, T: t0 + ms, NTP: ms, Sync: ms%200 == 0}})
 		}
 	}
 	atr := 2
-	if kind != "va" {
+	if !video {
 		atr = 1
 	}
 	alen := int64(600)
-	if kind == "va" {
+	if video {
 		alen = 800
 	}
-	for ms := int64(0); ms < alen; ms += 30 {
-		us = append(us, vf27Unit{Track: atr, T: t0 + ms, NTP: ms, Sync: true})
+	for ms := int64(0); ms < alen; ms += acad {
+		cs = append(cs, capt{ms, vf27Unit{Track: atr, T: t0 + ms + off, NTP: ms + off, Sync: true}})
 	}
-	sort.SliceStable(us, func(i, j int) bool { return us[i].T < us[j].T })
+	sort.SliceStable(cs, func(i, j int) bool { return cs[i].at < cs[j].at })
 	byID := map[int]vf27Unit{}
-	for i := range us {
-		us[i].ID = id
-		byID[id] = us[i]
-		id++
+	for i := range cs {
+		cs[i].u.ID = i + 1
+		byID[i+1] = cs[i].u
+		run.Units = append(run.Units, cs[i].u)
 	}
-	run.Units = us
 	return run, byID
 }
 
@@ -1031,10 +1063,16 @@ func TestVerif_C27_Crash(t *testing.T) {
 	covered := map[string]int{}
 	skipped := false
 
-	for si, kind := range []string{"va", "a"} {
+	kinds := []string{"va", "a", "va+50", "va+300", "va-50", "va-300"}
+	if verifrt.Param("STARTRACE", 0) == 1 {
+		// audio leads and its second unit arrives before the second video unit: the first segment is
+		// opened by the audio sample and the first IDR is discarded as late (findings/C27.md, C27-F3)
+		kinds = append(kinds, "va+50r")
+	}
+	for si, kind := range kinds {
 		dir := t.TempDir()
 		run, byID := vf27StdRun(kind, 10000)
-		files := vf27Record(t, dir, "cam", run)
+		files, reported := vf27RecordEx(t, dir, "cam", run)
 		if len(files) == 0 {
 			t.Fatalf("stream %s: the recorder made no file", kind)
 		}
@@ -1057,6 +1095,7 @@ func TestVerif_C27_Crash(t *testing.T) {
 		// ---- normally closed segments
 		good := vf27Observe(t, child, dir, files[len(files)-1], -1000)
 		all := [][2]int{}
+		firstMs, endMs := int64(1<<62), int64(-1<<62)
 		numbers := []uint64{}
 		sameStream := true
 		for i, sg := range segs {
@@ -1094,20 +1133,30 @@ func TestVerif_C27_Crash(t *testing.T) {
 						}
 					}
 					fed = append(fed, fedT{Track: u.Track, ID: u.ID, T: u.T, End: end, Sync: u.Sync})
+					if u.NTP < firstMs {
+						firstMs = u.NTP
+					}
+					if e := u.NTP + (end - u.T); e > endMs {
+						endMs = e
+					}
 					fileSamples = append(fileSamples, map[string]any{"tr": sm.Track, "id": sm.ID,
 						"video": vf27TrackIsVideo(run, sm.Track), "sync": sm.Sync,
 						"dtsMs": sm.DTS * 1000 / sm.TS, "durMs": sm.Dur * 1000 / sm.TS})
 				}
 			}
 			out.Emit(map[string]any{"kind": "closed", "stream": kind, "seg": i + 1, "hasVideo": run.Video,
-				"hdrDurMs": sg.HdrDur, "startMs": sg.StartMs, "fed": fed, "file": fileSamples, "unknown": unknown,
+				"hdrDurMs": sg.HdrDur, "cbDurUs": vf27Reported(reported, sg.Path), "startMs": sg.StartMs,
+				"fed": fed, "file": fileSamples, "unknown": unknown,
 				"mtxi": map[string]any{"stream": sg.Stream, "number": sg.Number, "dtsMs": sg.DTSMs}})
 		}
 		out.Emit(map[string]any{"kind": "run", "stream": kind, "nsegs": len(segs),
 			"sameStream": sameStream, "numbers": numbers,
-			"firstMs": run.Units[0].NTP, "endMs": vf27RunEnd(run, ends),
+			"firstMs": firstMs, "endMs": endMs,
 			"obs": good, "all": all})
 
+		if len(kind) > 2 {
+			continue // crash points are enumerated on the aligned streams only
+		}
 		if !layoutOK || len(segs) < 2 || len(segs[1].Parts) < 3 {
 			out.Emit(map[string]any{"kind": "nocrash", "stream": kind,
 				"reason": fmt.Sprintf("layoutOK=%v segments=%d", layoutOK, len(segs))})
@@ -1250,6 +1299,14 @@ func TestVerif_C27_Crash(t *testing.T) {
 		}
 	}
 	out.Emit(map[string]any{"kind": "meta", "childStarts": child.Starts, "childCrashes": child.Crashes})
+}
+
+// -1: the recorder did not report the segment as complete
+func vf27Reported(m map[string]int64, p string) int64 {
+	if v, ok := m[p]; ok {
+		return v
+	}
+	return -1
 }
 
 func vf27FlatIDs(sg *vf27Seg) [][2]int {
